@@ -6,6 +6,7 @@
 
 #include "common/vh.hpp"
 #include "c02_chars.hpp"
+#include "c02_route.hpp"
 
 #include <fcppt/exception.hpp>
 #include <fcppt/unit.hpp>
@@ -346,6 +347,60 @@ void tp(rec<K, Ts...> const &v, std::string &o)
   o += ')';
 }
 
+// a different value of the same static type (the former value of an assignment target), component by component
+inline void tweak(fcppt::unit &) {}
+inline void tweak(char &c) { c = static_cast<char>(c ^ 1); }
+inline void tweak(wchar_t &c) { c = static_cast<wchar_t>(c ^ 1); }
+inline void tweak(unsigned short &v) { v = static_cast<unsigned short>(v ^ 1U); }
+inline void tweak(short &v) { v = static_cast<short>(v ^ 1); }
+inline void tweak(double &v) { v = v == 1.5 ? 2.5 : 1.5; }
+template <typename Ch>
+void tweak(std::basic_string<Ch> &s) { s.push_back(static_cast<Ch>('q')); }
+template <typename... Ts>
+void tweak(fcppt::tuple::object<Ts...> &);
+template <typename... Ts>
+void tweak(fcppt::variant::object<Ts...> &);
+template <unsigned K, typename T>
+void tweak(wrap<K, T> &);
+template <unsigned K, typename... Ts>
+void tweak(rec<K, Ts...> &);
+template <typename T>
+void tweak(fcppt::optional::object<T> &v)
+{
+  if (v.has_value())
+    tweak(v.get_unsafe());
+}
+template <typename T>
+void tweak(std::vector<T> &v)
+{
+  if (!v.empty())
+  {
+    T last(v.back());
+    tweak(last);
+    v.push_back(std::move(last));
+  }
+}
+template <typename... Ts>
+void tweak(fcppt::tuple::object<Ts...> &v)
+{
+  [&]<std::size_t... I>(std::index_sequence<I...>) { (tweak(fcppt::tuple::get<I>(v)), ...); }(std::index_sequence_for<Ts...>{});
+}
+template <typename... Ts>
+void tweak(fcppt::variant::object<Ts...> &v)
+{
+  fcppt::variant::apply([](auto &x) { tweak(x); }, v);
+}
+template <unsigned K, typename T>
+void tweak(wrap<K, T> &v)
+{
+  tweak(v.v);
+}
+template <unsigned K, typename... Ts>
+void tweak(rec<K, Ts...> &v)
+{
+  tweak(v.f);
+}
+
 struct tcounts
 {
   unsigned long n = 0, ok = 0, fail = 0, fatal = 0;
@@ -363,7 +418,8 @@ std::string one(
   try
   {
     using res_t = fp::result_of<Parser>;
-    fp::result<Ch, res_t> const res{[&]() -> fp::result<Ch, res_t> {
+    unsigned const route{c02route::route_of(_input, static_cast<unsigned>(_entry))};
+    fp::result<Ch, res_t> const res0{[&]() -> fp::result<Ch, res_t> {
       if constexpr (std::is_same_v<Sk, fsk::epsilon>)
       {
         if (_entry == 'p')
@@ -371,20 +427,43 @@ std::string one(
       }
       return fp::phrase_parse_string(_parser, std::move(_input), _skipper);
     }()};
+    // the result (one input in ten, chosen by the input itself, which keeps the exhaustive enumerations fast) travels through a special member of
+    // either<error<Ch>, T>, the error through one of error<Ch>: value AND fatal flag are values (c02_route.hpp)
+    std::string mm{};
+    bool const routed{route % 10U == 0U};
+    fp::result<Ch, res_t> const res{
+        routed ? c02route::routed_result<Ch, res_t>(
+                     mm,
+                     route / 10U,
+                     res0,
+                     [](res_t const &_v)
+                     {
+                       res_t o(_v);
+                       tweak(o);
+                       return o;
+                     },
+                     [](res_t const &_v)
+                     {
+                       std::string o{};
+                       tp(_v, o);
+                       return o;
+                     })
+               : res0};
     if (res.has_success())
     {
       ++_counts.ok;
       std::string out{"ok " + tname<res_t>() + " "};
       tp(res.get_success_unsafe(), out);
-      return out;
+      return out + mm;
     }
-    if (res.get_failure_unsafe().is_fatal())
+    if (routed ? c02route::routed_error<Ch>(mm, route / 10U, res.get_failure_unsafe()).is_fatal()
+               : res.get_failure_unsafe().is_fatal())
     {
       ++_counts.fatal;
-      return "fatal";
+      return "fatal" + mm;
     }
     ++_counts.fail;
-    return "fail";
+    return "fail" + mm;
   }
   catch (fcppt::exception const &)
   {
@@ -464,8 +543,16 @@ auto cstr(char const *const _s)
 using chunk_fn = bool (*)(unsigned _world, wchar_t _skip, std::string const &_grammar, top const &_op, std::string &_result);
 
 template <typename Ch, typename Parser>
-void run_shape(unsigned const _world, wchar_t const _skip, Parser const &_parser, top const &_op, std::string &_result)
+void run_shape(unsigned const _world, wchar_t const _skip, Parser &&_parser0, top const &_op, std::string &_result)
 {
+  static_assert(!std::is_reference_v<Parser>, "the generated shapes hand over a prvalue");
+  if (_world != (std::is_same_v<Ch, char> ? 0U : 1U))
+    return;
+  // the whole statically typed parser through a special member of its class; the route is a function of the shape's
+  // result type and of the operation
+  Parser const _parser{c02route::routed_parser<Parser>(
+      std::move(_parser0),
+      vh::sm::mix(vh::sm::mix(static_cast<unsigned>(_op.entry) + _op.maxlen, tname<fp::result_of<Parser>>()), _op.payload))};
   if constexpr (std::is_same_v<Ch, char>)
   {
     if (_world == 0)
